@@ -92,7 +92,12 @@ func (se *SessionExecutor) handleQuery(reqCtx *util.RequestContext, sql string) 
 func (se *SessionExecutor) checkSQLAllowed(reqCtx *util.RequestContext, sql string) error {
 	stmtType := parser.Preview(sql)
 	reqCtx.SetStmtType(stmtType)
-	if isSQLNotAllowedByUser(se, stmtType) {
+	checkedType := stmtType
+	if stmtType == parser.StmtComment {
+		// "/*!40101 insert ... */" is executed by the backend: check what it holds
+		checkedType = parser.PreviewSpecialComment(sql)
+	}
+	if isSQLNotAllowedByUser(se, checkedType) {
 		return fmt.Errorf("write DML is now allowed by read user")
 	}
 	ns := se.GetNamespace()
